@@ -12,24 +12,29 @@
 
   UNCONDITIONAL (no hypothesis about the core left):
     * registry bookkeeping: `C08_wrap`, `C08_drop`, `C08_drop_wrap_id`, `C08_counts`
-    * with reordering not enabled (`off = true`): `C08_ops_off` — `var`, `true/false`,
-      `apply` with every alias that does not quantify, `ite`, `quantify/exist/forall`, `cube`,
-      `_add_int`, `copy_bdd` into the same manager, `copy.copy`, the operators
-      `~ & | implies equiv`, `== != <= <` (temporaries released), `low/high`, `succ`,
-      `collect_garbage`, `configure` — and histories over them (`C08_live_den`)
-    * in every mode: `collect_garbage`, and the methods whose core part does not touch the
-      table (`C08_ops_unconditional`)
+    * with reordering not enabled (`off = true`), ARBITRARY arguments: `C08_ops_off` — `var`,
+      `true/false`, `apply` (every alias, the quantifiers included), `ite`, `let` (three forms),
+      `quantify/exist/forall`, `cube`, `image/preimage` (as state transformers), `_add_int`,
+      `copy_bdd` into the same manager, `copy.copy`, the operators `~ & | implies equiv`,
+      `== != <= <` (temporaries released), `low/high`, `succ`, `collect_garbage`, `configure`,
+      `declare` — and histories over them (`C08_live_den`)
+    * methods with a documented precondition, in every state that meets it: `C08_ops_guarded`
+      (`add_var` without gap, `find_or_add` under its level guard, `reorder()` with ≥ 2
+      variables, `reorder(order)` for a complete order, `copy`/`copy_bdd` into another manager
+      whose variables cover the support)
+    * in every mode: `C08_ops_unconditional` (no table change) and `collect_garbage`
     * shutdown after "drop everything, collect" (`C08_collect_then_shutdown`)
-  CONDITIONAL, hypotheses named: `CoreSpecs off` (mode `false` = reordering possibly enabled:
-  everything that can reorder), and for mode `true` the rest: `let` (`LetSpec`), `apply` with the quantifier aliases (`ApplyQuantSpec`), `image/preimage`
-  (`ImageSpec`), copies between managers (`CopySpec`), `declare/add_var/copy_vars`
-  (`VarsSpec`), `reorder` (`ReorderSpec`); `find_or_add` per state (`C08_find_or_add`);
+  CONDITIONAL, hypotheses named: `copy_vars` (`C08_copy_vars`: its levels can leave a gap, F7);
   shutdown with garbage still stored (`GcSpec0`: `collect_garbage` after the terminal's own
   reference is released).
+  Dynamic reordering ENABLED: `C08_ops_dyn` (from the C09 transparency theorems), plus everything
+  of `C08_ops_unconditional` / `C08_ops_guarded` that is stated for every mode.
 -/
 import DDProofs.AutoProofs
 import DDProofs.AutoTemps
 import DDProofs.AutoCore
+import DDProofs.AutoImage
+import DDProofs.AutoDyn
 open Std
 
 namespace DD
@@ -80,7 +85,8 @@ theorem C08_counts (a : AMgr) (hi : AInv off a) (u : Int) (hu : a.m.tbl.Mem u) :
 touched other than the new one(s), every live `Function` keeps its node and its meaning by
 variable name, whether the method returns or raises.
 `AKeeps off h` : creates at most handle `h`;  `AKeeps0 off` : the registry ends exactly as
-it started (temporaries of `<=`, `<` released);  `AKeepsL off [h1, h2]` : `succ`. -/
+it started (temporaries of `<=`, `<` released);  `AKeepsL off [h1, h2]` : `succ`;
+`AKeepsAt off a h` : the same for the start state `a` only (methods with a precondition). -/
 def C08_ops_list (off : Bool) (h : Nat) : Prop :=
   (∀ name, AKeeps off h (aVar name h)) ∧
   (∀ b, AKeeps off h (aConst b h)) ∧
@@ -92,8 +98,6 @@ def C08_ops_list (off : Bool) (h : Nat) : Prop :=
   (∀ i, AKeeps off h (aAddInt i h)) ∧
   (∀ hu, AKeeps off h (aCopyBddSame hu h)) ∧
   (∀ pre ht hs rn q fa, AKeeps off h (aImage pre ht hs rn q fa h)) ∧
-  (∀ src hu, AKeeps off h (aCopyTo src hu h)) ∧
-  (∀ src hu, AKeeps off h (aCopyBddTo src hu h)) ∧
   (∀ op hs ho, AKeeps off h (fApply op hs ho h)) ∧
   (∀ high hs, AKeeps off h (fChild high hs h)) ∧
   (∀ hs, AKeeps off h (fCopy hs h)) ∧
@@ -103,128 +107,57 @@ def C08_ops_list (off : Bool) (h : Nat) : Prop :=
   (∀ hs ho, AKeeps0 off (fLe hs ho)) ∧
   (∀ hs ho, AKeeps0 off (fLt hs ho)) ∧
   AKeeps off h aCollectGarbage ∧
-  (∀ o, AKeeps off h (aReorder o)) ∧
   (∀ r, (off = true → r ≠ some true) → AKeeps off h (aConfigure r)) ∧
-  (∀ ns, AKeeps off h (aDeclare ns)) ∧
-  (∀ n l, AKeeps off h (aAddVar n l)) ∧
-  (∀ src names, AKeeps off h (aCopyVars src names))
+  (∀ ns, AKeeps off h (aDeclare ns))
 
-/-- the unconditional statement (every mode) -/
-def C08_ops_statement (off : Bool) : Prop := ∀ h, C08_ops_list off h
-
-/-- … proved from the frame properties of the core operations (`collect_garbage` needs none) -/
-theorem C08_ops_of_coreSpecs (cs : CoreSpecs off) : C08_ops_statement off := fun h =>
-  ⟨fun n => aVar_keeps n (cs.var n) h, fun b => aConst_keeps b h,
-   fun op hu hv hw => aApply_keeps op (cs.apply op) hu hv hw h,
-   fun hg hu hv => aIte_keeps cs.ite hg hu hv h,
-   fun d hu => aLet_keeps cs d hu h,
-   fun hu q fa => aQuantify_keeps q fa (fun m u hm => cs.quantify m u hm q fa) hu h,
-   fun d => aCube_keeps cs d h, fun i => aAddInt_keeps i h, fun hu => aCopyBddSame_keeps hu h,
-   fun pre ht hs rn q fa => aImage_keeps cs pre ht hs rn q fa h,
-   fun src hu => aCopyTo_keeps cs src hu h, fun src hu => aCopyBddTo_keeps cs src hu h,
-   fun op hs ho => fApply_keeps op (fun u v => cs.apply op u v none) hs ho h,
-   fun high hs => fChild_keeps high hs h,
-   fun hs => fCopy_keeps hs h, fun hu h2 hne => aSucc_keepsL hu h h2 hne,
-   fun hs ho => fEq_keeps0 hs ho, fun hs ho => fNe_keeps0 hs ho,
-   fun hs ho => fLe_keeps0 (fun u => cs.apply "not" u none none)
-     (fun u v => cs.apply "or" u (some v) none) hs ho,
-   fun hs ho => fLt_keeps0 (fun u => cs.apply "not" u none none)
-     (fun u v => cs.apply "or" u (some v) none) hs ho,
-   aCollectGarbage_keepsAll h, fun o => aReorder_keeps cs o h,
-   fun r hr => aConfigure_keeps r hr h,
-   fun ns => aDeclare_keeps cs ns h, fun n l => aAddVar_keeps cs n l h,
-   fun src names => aCopyVars_keeps cs src names h⟩
-
-/-- reordering NOT enabled: these methods need no hypothesis at all -/
-theorem C08_ops_off (h : Nat) :
-    (∀ name, AKeeps true h (aVar name h)) ∧
-    (∀ b, AKeeps true h (aConst b h)) ∧
-    (∀ op, NonQuant op → ∀ hu hv hw, AKeeps true h (aApply op hu hv hw h)) ∧
-    (∀ hg hu hv, AKeeps true h (aIte hg hu hv h)) ∧
-    (∀ hu q fa, AKeeps true h (aQuantify hu q fa h)) ∧
-    (∀ d, AKeeps true h (aCube d h)) ∧
-    (∀ i, AKeeps true h (aAddInt i h)) ∧
-    (∀ hu, AKeeps true h (aCopyBddSame hu h)) ∧
-    (∀ op, NonQuant op → ∀ hs ho, AKeeps true h (fApply op hs ho h)) ∧
-    (∀ high hs, AKeeps true h (fChild high hs h)) ∧
-    (∀ hs, AKeeps true h (fCopy hs h)) ∧
-    (∀ hu h2, h ≠ h2 → AKeepsL true [h, h2] (aSucc hu h h2)) ∧
-    (∀ hs ho, AKeeps0 true (fEq hs ho)) ∧
-    (∀ hs ho, AKeeps0 true (fNe hs ho)) ∧
-    (∀ hs ho, AKeeps0 true (fLe hs ho)) ∧
-    (∀ hs ho, AKeeps0 true (fLt hs ho)) ∧
-    AKeeps true h aCollectGarbage ∧
-    (∀ r, r ≠ some true → AKeeps true h (aConfigure r)) :=
+/-- reordering NOT enabled: every method of the list, ARBITRARY arguments, no hypothesis.
+(`apply` with every alias incl. the quantifiers; `let` in its three forms; `image`/`preimage`
+as state transformers — their denotation is C13.) -/
+theorem C08_ops_off (h : Nat) : C08_ops_list true h :=
   ⟨fun n => aVar_keepsOff n h, fun b => aConst_keeps b h,
-   fun op hnq hu hv hw => aApply_keepsOff op hnq hu hv hw h,
+   fun op hu hv hw => aApply_keepsOff op hu hv hw h,
    fun hg hu hv => aIte_keepsOff hg hu hv h,
+   fun d hu => aLet_keepsOff d hu h,
    fun hu q fa => aQuantify_keepsOff hu q fa h, fun d => aCube_keepsOff d h,
    fun i => aAddInt_keeps i h, fun hu => aCopyBddSame_keeps hu h,
-   fun op hnq hs ho => fApply_keepsOff op hnq hs ho h,
+   fun pre ht hs rn q fa => aImage_keepsOff pre ht hs rn q fa h,
+   fun op hs ho => fApply_keepsOff op hs ho h,
    fun high hs => fChild_keeps high hs h, fun hs => fCopy_keeps hs h,
    fun hu h2 hne => aSucc_keepsL hu h h2 hne,
    fun hs ho => fEq_keeps0 hs ho, fun hs ho => fNe_keeps0 hs ho,
    fun hs ho => fLe_keepsOff hs ho, fun hs ho => fLt_keepsOff hs ho,
-   aCollectGarbage_keepsAll h, fun r hr => aConfigure_keeps r (fun _ => hr) h⟩
+   aCollectGarbage_keepsAll h, fun r hr => aConfigure_keeps r hr h,
+   fun ns => aDeclare_keepsOff ns h⟩
 
-/-- the operators of `Function` use aliases that do not quantify -/
-theorem C08_operator_aliases :
-    NonQuant "not" ∧ NonQuant "and" ∧ NonQuant "or" ∧ NonQuant "implies" ∧ NonQuant "equiv" :=
-  ⟨nonQuant_not, nonQuant_and, nonQuant_or, nonQuant_implies, nonQuant_equiv⟩
-
-/-! the hypotheses that remain when reordering is not enabled -/
-
-/-- `let` (cofactor / compose / rename) -/
-structure LetSpec : Prop where
-  letOp : ∀ d u, CoreKeeps true (letOp d u)
-/-- `apply` with the aliases that quantify (`\A`, `\E`, `forall`, `exists`) -/
-structure ApplyQuantSpec : Prop where
-  apply : ∀ op, ¬ NonQuant op → ∀ u v w, CoreKeeps true (apply op u v w)
-/-- `image` / `preimage` -/
-structure ImageSpec : Prop where
-  image : ∀ t s rn q f, CoreKeeps true (image t s rn q f)
-  preimage : ∀ t s rn q f, CoreKeeps true (preimage t s rn q f)
-/-- `copy_bdd` into another manager -/
-structure CopySpec : Prop where
-  copyBdd : ∀ src u, CoreKeeps true (copyBdd src u)
-/-- `declare` / `add_var` / `copy_vars` -/
-structure VarsSpec : Prop where
-  declare : ∀ ns, CoreKeeps true (declare ns)
-  addVar : ∀ n l, CoreKeeps true (addVar n l)
-  copyVars : ∀ src names, CoreKeeps true (copyVarsCore src names)
-/-- explicit `reorder` (sifting or a given order) that leaves reordering disabled -/
-structure ReorderSpec : Prop where
-  reorder : ∀ o, CoreKeeps true (reorder o)
-
-/-- reordering not enabled: the whole list, from the remaining named hypotheses only -/
-theorem C08_ops_off_of_rest (hl : LetSpec) (hq : ApplyQuantSpec) (hi : ImageSpec)
-    (hcp : CopySpec) (hv : VarsSpec) (hr : ReorderSpec) : C08_ops_statement true :=
-  C08_ops_of_coreSpecs
-    { var := var_keepsOff
-      apply := fun op u v w => by
-        by_cases hnq : NonQuant op
-        · exact apply_keepsOff op u v w hnq
-        · exact hq.apply op hnq u v w
-      ite := ite_keepsOff
-      letOp := hl.letOp
-      quantify := fun m u hm q f => quantify_keepsAtOff m u hm q f
-      cube := cube_keepsOff
-      image := hi.image
-      preimage := hi.preimage
-      reorder := hr.reorder
-      declare := hv.declare
-      addVar := hv.addVar
-      copyBdd := hcp.copyBdd
-      copyVars := hv.copyVars }
-
-/-- `find_or_add(var, low, high)` has no test of its own: the guarantee holds in every state
-in which the core `find_or_add` keeps the invariants for the level and children that the
-wrapper reads (documented precondition: level above both children) -/
-theorem C08_find_or_add (a : AMgr) (var : String) (hlow hhigh h : Nat)
-    (hfoa : ∀ level lo hi, (levelOfVar var a.m).1 = .ok level → (nodeAny hlow a).1 = .ok lo →
-      (nodeAny hhigh a).1 = .ok hi → CoreKeepsAt off a.m (findOrAdd level lo hi)) :
-    AKeepsAt off a h (aFindOrAdd var hlow hhigh h) :=
-  aFindOrAdd_keepsAt a var hlow hhigh h hfoa
+/-- the methods with a documented precondition, reordering not enabled: the guarantee holds
+in every state that meets it.
+* `add_var(name, level)`: the level leaves no gap (finding F7) — every mode;
+* `find_or_add(var, low, high)`: the level of `var` is above both children (the wrapper adds no
+  test of its own);
+* `reorder()`: at least two variables (with one the code raises `ValueError`) — every mode;
+* `reorder(order)`: a complete order of the declared variables — every mode;
+* `copy(u, other)` / `copy_bdd(u, other)`: the source satisfies the invariant and every variable
+  of the support of `u` is declared in the target. -/
+theorem C08_ops_guarded (a : AMgr) (h : Nat) :
+    (∀ n l, (∀ l' : Int, l = some l' → a.m.tbl.vars[n]? = none → l' ≤ (a.m.nvars : Int)) →
+      AKeepsAt off a h (aAddVar n l)) ∧
+    (∀ var hlow hhigh, (∀ level lo hi, (levelOfVar var a.m).1 = .ok level →
+        (nodeAny hlow a).1 = .ok lo → (nodeAny hhigh a).1 = .ok hi → FoaGuard a.m level lo hi) →
+      AKeepsAt true a h (aFindOrAdd var hlow hhigh h)) ∧
+    (2 ≤ a.m.nvars → AKeepsAt off a h (aReorder none)) ∧
+    (∀ o, ReqOrder o a.m → AKeepsAt off a h (aReorder (some o))) ∧
+    (∀ (src : AMgr) (offS : Bool) hu, AInv offS src →
+      (∀ u, (nodeIn hu src).1 = .ok u → CopyPreA src.m.tbl u a.m.tbl) →
+      AKeepsAt true a h (aCopyTo src hu h)) ∧
+    (∀ (src : AMgr) (offS : Bool) hu, AInv offS src →
+      (∀ u, (nodeOwn hu src).1 = .ok u → CopyPreA src.m.tbl u a.m.tbl) →
+      AKeepsAt true a h (aCopyBddTo src hu h)) :=
+  ⟨fun n l hg => aAddVar_keepsAt' a n l hg h,
+   fun var hlow hhigh hg => aFindOrAdd_keepsAtOff a var hlow hhigh h hg,
+   fun h2 => aReorder_sift_keepsAt a h2 h,
+   fun o ho => aReorder_order_keepsAt a o ho h,
+   fun src _ hu hsrc hpre => aCopyTo_keepsAtOff a src hsrc hu h hpre,
+   fun src _ hu hsrc hpre => aCopyBddTo_keepsAtOff a src hsrc hu h hpre⟩
 
 /-- the methods that need no hypothesis in ANY mode (reordering enabled or not): `true`/`false`,
 `_add_int`, `copy_bdd` into the same manager, `low`/`high`, `copy.copy(f)`, `succ`, `==`, `!=`,
@@ -240,6 +173,60 @@ theorem C08_ops_unconditional (h : Nat) :
    fun high hs => fChild_keeps high hs h, fun hs => fCopy_keeps hs h,
    fun hu h2 hne => aSucc_keepsL hu h h2 hne, fun hs ho => fEq_keeps0 hs ho,
    fun hs ho => fNe_keeps0 hs ho, aCollectGarbage_keepsAll h⟩
+
+/-- dynamic reordering possibly ENABLED (mode `off = false`: `AInv false` = the invariant with at
+least two variables; the reordering request may fire at any node creation, C09): for live
+`Function` operands and declared names these methods keep the invariant, every other handle
+and the meaning of every live `Function`.
+NOT covered with reordering enabled (named here, not proved): `apply` with the quantifier
+aliases (needs "the support names are declared", C03/C10), `let` with `Function` values,
+`declare` as a loop (use `add_var`, `C08_ops_guarded`), and the operations that are not
+protected against a reordering in the middle — `image`, `preimage`, the raw `find_or_add`
+(finding F4c). -/
+theorem C08_ops_dyn (a : AMgr) (h : Nat) :
+    (∀ hg hu hv, AKeepsAt false a h (aIte hg hu hv h)) ∧
+    (∀ op c, docConn op = some c → c.arity = 2 → c ≠ .forall_ → c ≠ .exists_ →
+      Gen.allOps.contains op = true → ∀ hu hv, AKeepsAt false a h (aApply op hu (some hv) none h)) ∧
+    (∀ op, docConn op = some .ite → Gen.allOps.contains op = true →
+      ∀ hu hv hw, AKeepsAt false a h (aApply op hu (some hv) (some hw) h)) ∧
+    (∀ name, AKeepsAt false a h (aVar name h)) ∧
+    (∀ hu (names : List String) fa, (∀ s ∈ names, a.m.tbl.vars.contains s = true) →
+      AKeepsAt false a h (aQuantify hu (names.map Key.name) fa h)) ∧
+    (∀ (d : List (String × Bool)), (∀ p ∈ d, a.m.tbl.vars.contains p.1 = true) →
+      AKeepsAt false a h (aCube d h)) ∧
+    (∀ (vals : List (String × Bool)), vals ≠ [] → (∀ p ∈ vals, a.m.tbl.vars.contains p.1 = true) →
+      ∀ hu, AKeepsAt false a h (aLet (.bools (boolKeys vals)) hu h)) ∧
+    (∀ (dvars : List (String × String)), dvars ≠ [] → (∀ p ∈ dvars, a.m.tbl.vars.contains p.2 = true) →
+      ∀ hu, AKeepsAt false a h (aLet (.names dvars) hu h)) ∧
+    (∀ op c, docConn op = some c → c.arity = 2 → c ≠ .forall_ → c ≠ .exists_ →
+      Gen.allOps.contains op = true → ∀ hs ho, AKeepsAt false a h (fApply op hs (some ho) h)) ∧
+    (∀ op hs, AKeeps false h (fApply op hs none h)) ∧
+    (∀ hs ho, AKeeps0 false (fLe hs ho)) ∧
+    (∀ hs ho, AKeeps0 false (fLt hs ho)) ∧
+    (∀ (src : AMgr) (offS : Bool) hu, AInv offS src →
+      (∀ u, (nodeIn hu src).1 = .ok u → CopyPre src.m.tbl u a.m.tbl) →
+      AKeepsAt false a h (aCopyTo src hu h)) :=
+  ⟨fun hg hu hv => aIte_keepsAtDyn a hg hu hv h,
+   fun op c hc h2 hq1 hq2 hall hu hv => aApply_binary_keepsAtDyn a op c hc h2 hq1 hq2 hall hu hv h,
+   fun op hc hall hu hv hw => aApply_ite_keepsAtDyn a op hc hall hu hv hw h,
+   fun name => aVar_keepsAtDyn a name h,
+   fun hu names fa hd => aQuantify_keepsAtDyn a hu names fa hd h,
+   fun d hd => aCube_keepsAtDyn a d hd h,
+   fun vals hne hd hu => aLet_bools_keepsAtDyn a vals hne hd hu h,
+   fun dvars hne hd hu => aLet_names_keepsAtDyn a dvars hne hd hu h,
+   fun op c hc h2 hq1 hq2 hall hs ho => fApply_binary_keepsAtDyn a op c hc h2 hq1 hq2 hall hs ho h,
+   fun op hs => fApply_unary_keeps op hs h,
+   fun hs ho => fLe_keepsDyn hs ho, fun hs ho => fLt_keepsDyn hs ho,
+   fun src _ hu hsrc hpre => aCopyTo_keepsAtDyn a src hsrc hu h hpre⟩
+
+/-- non-vacuity of the mode: the C09 example manager (reordering enabled, two variables) -/
+example : DynInv exExt exDyn := exDyn_dynInv
+
+/-- the one remaining hypothesis with reordering not enabled: `copy_vars(source, target)` adds the
+variables at the levels of the source, which can leave a gap in the target (finding F7) -/
+theorem C08_copy_vars (a : AMgr) (src : Tbl) (names : List String) (h : Nat)
+    (hs : CoreKeepsAt off a.m (copyVarsCore src names)) : AKeepsAt off a h (aCopyVars src names) :=
+  aCopyVars_keepsAt a src names hs h
 
 /-! ### histories -/
 
@@ -279,8 +266,10 @@ theorem C08_shutdown_of_gcSpec0 (gs : GcSpec0) : C08_shutdown_statement :=
 /-! ### non-vacuity -/
 
 /-- a fresh `autoref.BDD()` satisfies the invariant (reordering is not enabled in it) -/
-theorem AInv.empty : AInv off ({} : AMgr) := by
-  refine ⟨Inv.init, fun h u hh => ?_, ⟨fun k => ?_, fun k c hk => ?_, fun k hk => ?_⟩, fun _ => rfl⟩
+theorem AInv.empty : AInv true ({} : AMgr) := by
+  refine ⟨⟨Inv.init, OrderOK.empty, ⟨fun k => ?_, fun k c hk => ?_, fun k hk => ?_⟩, rfl, rfl, rfl,
+    ⟨fun _ => rfl, fun h => nomatch h⟩⟩, fun h u hh => ?_⟩
+  rotate_left 3
   · rw [show ({} : AMgr).handles = (∅ : TreeMap Nat Int) from rfl, TreeMap.getElem?_emptyc] at hh
     cases hh
   · show (((∅ : TreeMap Nat Nat).insert 1 1)[k]?).isSome ↔ (k = 1 ∨ ((∅ : TreeMap Nat Nd)[k]?).isSome)
@@ -305,7 +294,7 @@ theorem AInv.empty : AInv off ({} : AMgr) := by
 /-- a state with a live `Function` (the constant `true` as handle 0) satisfies the invariant:
 the hypotheses of `C08_drop`, `C08_live_den` are satisfiable with a non-empty registry -/
 example : AInv true (aConst true 0 {}).2 ∧ (aConst true 0 {}).2.handles[(0 : Nat)]? = some 1 := by
-  obtain ⟨a', hw, i', _, hh, _⟩ := wrap_spec (off := true) {} 0 1 AInv.empty
+  obtain ⟨a', hw, i', _, hh, _⟩ := wrap_spec {} 0 1 AInv.empty
     (by show (∅ : TreeMap Nat Int).contains 0 = false; exact TreeMap.contains_emptyc) (Or.inl rfl)
   have : aConst true 0 {} = (.ok 1, a') := by
     show AM.bind' (AM.liftM (pure 1)) (fun r => AM.bind' (wrap 0 r) (fun _ => AM.pure' r)) {} = _
@@ -318,11 +307,11 @@ example : AInv true (aConst true 0 {}).2 ∧ (aConst true 0 {}).2.handles[(0 : N
 
 /-- the hypothesis structure `CoreKeeps` is satisfiable (here: by a read; `ite_keepsOff`,
 `apply_keepsOff`, `var_keepsOff`, `gc_keeps` are instances for real operations) -/
-example : CoreKeeps off (addInt 1) := CoreKeeps.of_read (addInt_read 1)
+example : CoreKeeps off (addIntA 1) := CoreKeeps.of_read (addIntA_read 1)
 example : CoreKeeps true (ite 2 3 4) := ite_keepsOff 2 3 4
 
 /-- the hypotheses of the shutdown theorems are met by a fresh manager -/
-example : AInv off ({} : AMgr) ∧ ({} : AMgr).handles.isEmpty = true :=
+example : AInv true ({} : AMgr) ∧ ({} : AMgr).handles.isEmpty = true :=
   ⟨AInv.empty, TreeMap.isEmpty_emptyc⟩
 
 end DD
